@@ -704,10 +704,6 @@ pub fn check_c08(case: &RCase, log: &RunLog, m: &Modelled) -> Vec<Violation> {
                     out.push(v("C08/too-many-late-starts", format!("{late} attempts began after the first final failure's Finished (#{p}), limit {k}")));
                 }
             }
-            let late_batches: BTreeSet<u64> = m.attempts.iter().filter(|a| a.started.is_some_and(|s| s > p)).filter_map(|a| disp_of(a).map(|d| d.batch)).collect();
-            if late_batches.len() > 1 {
-                out.push(v("C08/dispatch-after-failure", format!("attempts of {} different batches {late_batches:?} began after the first final failure's Finished: the later batch was dispatched after it", late_batches.len())));
-            }
         }
         None => {
             // no final failure: nothing may be held back
